@@ -163,7 +163,7 @@ TERM_ELEMS = ['C', 'C', 'N', 'O', 'O', 'F', 'Cl', 'Br', 'S']
 
 
 def gen_mol(R, max_heavy=10, min_heavy=1, p_ring=0.5, p_arom=0.35, p_multi=0.4, p_charge=0.3,
-            hyper=True, elements=None, p_quin=0.0):
+            hyper=True, elements=None, p_quin=0.0, p_fused=0.0):
     m = Mol()
     n = R.randint(min(min_heavy, max_heavy), max_heavy)
     chain_elems = elements or CHAIN_ELEMS
@@ -182,6 +182,29 @@ def gen_mol(R, max_heavy=10, min_heavy=1, p_ring=0.5, p_arom=0.35, p_multi=0.4, 
             cands = [i for i in ids if m.atoms[i]['element'] == 'C']
             m.add_bond(attach, R.choice(cands), 1)
         return ids
+
+    def add_fused(attach):
+        # naphthalene / anthracene / phenanthrene: every ring bond aromatic (1.5)
+        kind = R.choice(['naphthalene', 'anthracene', 'phenanthrene'])
+        if kind == 'naphthalene':
+            n_ = 10
+            ring_edges = [(0, 1), (1, 2), (2, 3), (3, 4), (4, 5), (5, 6), (6, 7), (7, 8), (8, 9), (9, 0), (4, 9)]
+            fusion = {4, 9}
+        elif kind == 'anthracene':
+            # c1ccc2cc3ccccc3cc2c1 : perimeter 0..13 plus two fusion bonds
+            n_ = 14
+            ring_edges = [(i, (i + 1) % 14) for i in range(14)] + [(3, 12), (5, 10)]
+            fusion = {3, 12, 5, 10}
+        else:
+            # c1ccc2c(c1)ccc1ccccc21 : perimeter 0..13 plus fusion bonds (angular)
+            n_ = 14
+            ring_edges = [(i, (i + 1) % 14) for i in range(14)] + [(4, 13), (5, 10)]
+            fusion = {4, 13, 5, 10}
+        ids = [m.add_atom('C', aromatic=True) for _ in range(n_)]
+        for a, b in ring_edges:
+            m.add_bond(ids[a], ids[b], 1.5)
+        m.fused = True
+        m.add_bond(attach, ids[R.choice([x for x in range(n_) if x not in fusion])], 1)
 
     def add_quin(attach):
         # para- or ortho-quinoid six ring: two ring carbons carry an exocyclic double bond (=O, =CH2,
@@ -206,6 +229,9 @@ def gen_mol(R, max_heavy=10, min_heavy=1, p_ring=0.5, p_arom=0.35, p_multi=0.4, 
         p = R.choice(cands)
         if p_quin and R.random() < p_quin / 3 and len(m.atoms) + 8 <= max_heavy + 6:
             add_quin(p)
+            continue
+        if p_fused and R.random() < p_fused / 3 and not getattr(m, 'fused', False):
+            add_fused(p)
             continue
         if R.random() < p_arom / 3 and len(m.atoms) + 6 <= max_heavy + 4:
             add_arom(p)
@@ -661,6 +687,8 @@ MOL_CLASSES = [
     # of the element Sc), likewise 'C' + 'n'/'o'/'s' would be; exercises the tokenisation of atoms
     # quinoid rings written in lower case (conjugated but not aromatic; exocyclic C=O, C=C, C=N, C=S)
     dict(name='quinoid', max_heavy=12, min_heavy=9, p_ring=0.2, p_arom=0.2, p_multi=0.3, p_charge=0.1, p_quin=0.9),
+    # fused aromatic ring systems (naphthalene, anthracene, phenanthrene)
+    dict(name='fused_aromatic', max_heavy=8, min_heavy=3, p_ring=0.1, p_arom=0.1, p_multi=0.3, p_charge=0.1, p_fused=0.9),
     dict(name='thioaryl', max_heavy=12, min_heavy=7, p_ring=0.1, p_arom=0.9, p_multi=0.2, p_charge=0.1,
          elements=['S', 'S', 'C', 'C', 'N', 'O']),
 ]
